@@ -222,7 +222,7 @@ func checkC15(P *Prog, r *Result) {
 		r.undecided("C15/dispatch-table", "Config.Parsers.JSON", "-", "slot initialiser not found")
 	}
 	for _, nm := range []string{"Form", "Query"} {
-		f := P.fn("zog/zhttp.Config.Parsers." + nm + "(func)$1")
+		f := returnedClosure(P.fn("zog/zhttp.Config.Parsers." + nm + "(func)"))
 		if f == nil {
 			r.undecided("C15/dispatch-table", "Config.Parsers."+nm, "-", "slot initialiser not found")
 			continue
@@ -274,7 +274,7 @@ func (P *Prog) checkDecodeFailure(r *Result) {
 	codeF := structField(R.ZogIssue, "Code")
 	type spec struct{ fn, code string }
 	for _, sp := range []spec{{"zog/parsers/zjson.Decode$1", "invalid_json"}, {"zog/zhttp.Config.Parsers.Form(func)$1", "invalid_form"}} {
-		fn := P.fn(sp.fn)
+		fn := returnedClosure(P.fn(strings.TrimSuffix(sp.fn, "$1")))
 		if fn == nil {
 			r.undecided("C15/decode-failure", sp.fn, "-", "closure not found")
 			continue
